@@ -59,7 +59,7 @@ func seqName(seq []int) string {
 
 func scenario(spec *bk.Spec, seq []int, bound int) *sched.Config {
 	name := spec.Name + "/" + seqName(seq)
-	return &sched.Config{Name: name, Bound: 1, ChoiceBound: bound, SigPrefix: "C13|" + spec.Name,
+	return &sched.Config{Name: name, Bound: pbound(), DelayBound: !vk.Thorough(), ChoiceBound: bound, SigPrefix: "C13|" + spec.Name,
 		Body: func(x *sched.X) {
 			env := bk.NewEnv()
 			defer env.Close()
@@ -539,6 +539,14 @@ func diskScenario(kind string, seq []int) *sched.Config {
 }
 
 type filesSto struct{ *files.Storage }
+
+// pbound: quick is delay-bounded (2 departures from the default scheduler), thorough preemption-bounded (1).
+func pbound() int {
+	if vk.Thorough() {
+		return 1
+	}
+	return 2
+}
 
 func sequences(maxLen int) [][]int {
 	var out [][]int
